@@ -1158,4 +1158,13 @@ val step_broad : cfg -> n -> n list -> rv * sres
 
 val init : cfg -> n -> n list -> n list list -> (dstate * rv) * sres
 
+val step1 :
+  cfg -> dstate -> n -> n list -> n list list -> (dstate * rv) * sres
+
+val nth_default : cfg -> dstate -> n -> nat -> (dstate * rv) * sres
+
+val drain :
+  cfg -> dstate -> n -> nat -> n -> rv -> bool -> (dstate * (n * rv)
+  res) * bool
+
 val step : cfg -> dstate -> n -> n list -> n list list -> (dstate * rv) * sres
